@@ -65,7 +65,9 @@ class CaptureMap:
                         pv = pan.term_of.get((pr, pvers.get(pr, ("e",))))
                         if pv is None and pvers.get(pr, ("e",)) == ("e",):
                             pv = pan.load_region(pr, None, pvers)
-                        if pv is not None and pv[0] not in ("opq", "mem"):
+                        stable_mem = pv is not None and pv[0] == "mem" and pv[1] != pr and pv[2] == ("e",) \
+                            and pv[3] is None and pan.shared_imm(pv[1])
+                        if pv is not None and (pv[0] not in ("opq", "mem") or stable_mem):
                             cl = can.load_region(name, None, {})
                             self.valmap.append((pv, cl))
                             pr2 = pan.region_of_pointer(pv)
@@ -238,7 +240,7 @@ def closure_entry_facts(crate, can):
                 for s in cm.tr_all(L):
                     out.append(("eq",) + tuple(sorted((("len", at), s), key=repr)))
     for pv, cv in cm.valmap:
-        if cv[0] == "mem" and pv[0] in ("bin", "call", "len", "max", "min", "field"):
+        if cv[0] == "mem" and pv[0] in ("bin", "call", "len", "max", "min", "field", "mem"):
             for s_ in cm.tr_all(pv, structural_only=True):
                 if s_ != cv:
                     out.append(("eq",) + tuple(sorted((cv, s_), key=repr)))
